@@ -58,7 +58,7 @@ def run(tier, wd):
         tries = 0
         while len(lines) < per_prog and tries < per_prog * 5:
             tries += 1
-            items = g.sample_items(p, ast, rnd) if parts else []
+            items = g.sample_items(p, ast, rnd, poss=("x", "y", "z1", "-")) if parts else []     # a lone dash is an argument value
             r = rnd.random()
             if r < 0.3:
                 items = g.shuffle_runs(items, rnd)
